@@ -82,4 +82,10 @@ def showTable (l : List (Nat × Nat)) : String :=
 def showIntTable (l : List (Int × Nat)) : String :=
   if l.isEmpty then "-" else ",".intercalate (l.map fun p => s!"{p.1}:{p.2}")
 
+def parseMatrix (s : String) : Option (List (List Nat)) :=
+  if s == "-" then some [] else (splitOn s ";").mapM parseNatList
+
+def showMatrix (m : List (List Nat)) : String :=
+  if m.isEmpty then "-" else ";".intercalate (m.map showNatList)
+
 end FF.Proto
